@@ -57,6 +57,9 @@ class TypeDB:
             q = self.cdb.class_alias(n)
             if q is not None:
                 return self.class_ty(q)
+            if n in self.cdb.type_aliases:
+                mod, _, nm = self.cdb.type_aliases[n].rpartition(".")
+                return self.ann_to_ty(mod, ast.Name(id=nm))
             return TAbs(n)
         if isinstance(node, ast.Attribute):
             q = ast.unparse(node)
